@@ -19,6 +19,7 @@ OUT = REPO + "-out"
 
 
 def m(mid, checks, path, old, new, occ=None, tests=None, note=""):
+    assert all(x["id"] != mid for x in M), "duplicate mutant id %s" % mid
     M.append(dict(id=mid, checks=checks.split(","), path=path, old=old, new=new, occ=occ, tests=tests, note=note))
 
 
@@ -173,6 +174,15 @@ m("V03", "C13", CW, '            and getattr(self, "is_fitted_", False)\n', '   
   tests="skactiveml/classifier/tests/test_wrapper.py", note="SklearnClassifier.partial_fit: a batch without labels switches to the fallback (reverts fix)")
 m("V04", "C12,C13", RW, '            estimator_params["sample_weight"] = sample_weight[is_lbld]\n', '            estimator_params["sample_weight"] = sample_weight[is_lbld] ** 2\n', occ=1,
   tests="skactiveml/regressor/tests/test_wrapper.py", note="SklearnRegressor squares the weights of the labeled samples")
+
+
+AEC = "skactiveml/classifier/multiannotator/_annotator_ensemble_classifier.py"
+m("AE1", "X06,C11,C13,C09", AEC, "                est[1].fit(X=X, y=y[:, i])\n", "                est[1].fit(X=X, y=y[:, 0])\n", occ=1,
+  tests="skactiveml/classifier/multiannotator/tests/test_annotator_ensemble_classifier.py",
+  note="every member of the annotator ensemble is trained on the first annotator's labels (valid, history-free, encoding-invariant outputs: only the member-vote oracle of X06 sees it)")
+m("AE2", "X06,C11", AEC, "            P = np.sum(P, axis=0)\n", "            P = np.max(P, axis=0)\n", occ=1,
+  tests="skactiveml/classifier/multiannotator/tests/test_annotator_ensemble_classifier.py",
+  note="soft voting takes the maximum instead of the sum of the members' probabilities")
 
 
 def load_extra():
